@@ -409,7 +409,7 @@ def run_driver(ctx, drv, input_text, timeout=900, args=""):
 def locate_crash(ctx, drv, case_inputs, answered, args=""):
     """the driver died (signal) after answering `answered` cases: find a single case on which it dies alone"""
     import concurrent.futures
-    cand = list(range(answered, min(len(case_inputs), answered + 256)))
+    cand = list(range(max(0, answered // 2 - 4), min(len(case_inputs), answered + 64)))   # a case may answer with one or two lines
     def one(i):
         rc, _, err = run_driver_isolated(drv, case_inputs[i], timeout=120, args=args)
         return i, rc, err
